@@ -737,3 +737,30 @@ package mqtt
 //@ ensures C15-session-expiry-capped-at-server-maximum: old(cl.Properties.Props.SessionExpiryInterval) <= s.Options.Capabilities.MaximumSessionExpiryInterval ==> cl.Properties.Props.SessionExpiryInterval <= s.Options.Capabilities.MaximumSessionExpiryInterval
 //@ ensures C16-normal-disconnect-stops-without-error: pk.ReasonCode != 4 && !(pk.Properties.SessionExpiryIntervalFlag && pk.Properties.SessionExpiryInterval > 0 && old(cl.Properties.Props.SessionExpiryInterval) == 0) ==> r0 == nil && cl.stopped
 //@ ensures C16-disconnect-with-will-is-an-abnormal-end: pk.ReasonCode == 4 && !(pk.Properties.SessionExpiryIntervalFlag && pk.Properties.SessionExpiryInterval > 0 && old(cl.Properties.Props.SessionExpiryInterval) == 0) ==> r0 != nil
+
+// ======================================================================================
+// Topic index: pruning (C03, C31: removing empty nodes never drops a live subscription or retained message)
+// ======================================================================================
+// total number of subscriptions in a SharedSubscriptions table (what its Len() counts)
+// verif:ghost field nshared ref int
+// verif:func mqtt.SharedSubscriptions.Len trusted pure
+//@ ensures r0 == s.nshared && r0 >= 0
+// verif:func mqtt.Subscriptions.Len
+//@ ensures r0 == len(s.internal)
+// verif:func mqtt.InlineSubscriptions.Len
+//@ ensures r0 == len(s.internal)
+// verif:func mqtt.particles.len
+//@ ensures r0 == len(p.internal)
+// verif:func mqtt.particles.delete
+//@ modifies entries(p.internal)
+//@ ensures !has(p.internal, id) && (forall k string :: k != id ==> (has(p.internal, k) <==> old(has(p.internal, k))) && p.internal[k] == old(p.internal[k]))
+// a node that holds nothing: no retained message, no children, no client / shared / inline subscriptions
+// verif:def emptyNode(c *particle) bool = c.retainPath == "" && len(c.particles.internal) == 0 && len(c.subscriptions.internal) == 0 && c.shared.nshared == 0 && len(c.inlineSubscriptions.internal) == 0
+// index shape: a node registered in its parent is registered under its own key; every node has its three tables (newParticle)
+// verif:def wfTrie() bool = forall x *particle :: x != nil && x.parent != nil && has(x.parent.particles.internal, x.key) ==> x.parent.particles.internal[x.key] == x
+// verif:def nodesValid() bool = forall x *particle :: x != nil ==> x.subscriptions != nil && x.shared != nil && x.inlineSubscriptions != nil && x.particles.internal != nil
+// verif:func mqtt.TopicsIndex.trim modifies=all
+//@ requires n != nil && wfTrie() && nodesValid()
+//@ callsite mqtt.particles.delete C31-only-empty-nodes-are-pruned: has(n.particles.internal, key) ==> emptyNode(n.particles.internal[key])
+// verif:loop mqtt.TopicsIndex.trim 1
+//@ invariant n != nil && wfTrie() && nodesValid()
